@@ -162,6 +162,9 @@ func decodeExportSection(r *bytes.Reader) ([]wasm.Export, map[string]*wasm.Expor
 	if sizeErr != nil {
 		return nil, nil, fmt.Errorf("get size of vector: %v", sizeErr)
 	}
+	if uint64(vs) > uint64(r.Len()) {
+		return nil, nil, fmt.Errorf("vector size %d exceeds the remaining %d bytes", vs, r.Len())
+	}
 
 	exportMap := make(map[string]*wasm.Export, vs)
 	exportSection := make([]wasm.Export, vs)
